@@ -13,10 +13,11 @@ from .common import iterm
 META = {
     "stubs": ["functools.lru_cache bypassed (next_fast_len.__wrapped__ / prev_fast_len.__wrapped__ are the real bodies; "
               "a symbolic int is not hashable)"],
-    "bounds": {"exhaustive range": "0 <= N < 2^13 quick, < 2^20 thorough (split into sub-ranges, each explored over all paths)",
-               "windows": "thorough: N in [s-2^12, s+2^12] around every 97th 7-smooth s in [2^20, 2^62]"},
+    "bounds": {"exhaustive range": "0 <= N < 2^17 quick, < 2^20 thorough (split into sub-ranges, each explored over all paths)",
+               "windows": "symbolic N in [q-W, q+W] around pure prime powers q = 2^a, 3^a, 5^a, 7^a up to 2^62 (quick: every 4th, W=2^8; "
+                          "thorough: all, W=2^12); thorough also around every 97th 7-smooth s in [2^20, 2^62]"},
     "assumptions": ["Python integers (unbounded) - no overflow"],
-    "outside": ["N >= 2^20 away from the sampled windows", "fast_len on a signal (checked in C01)"],
+    "outside": ["N >= 2^17 (quick) / 2^20 (thorough) away from the sampled windows", "fast_len on a signal (checked in C01)"],
 }
 
 
@@ -99,11 +100,23 @@ class FastLen(Unit):
 
     def compare(self, S, args, out, CS, cargs, cout):
         from pbsym import core as K
+        if isinstance(out, Raised) or isinstance(cout, Raised):
+            return [] if (isinstance(out, Raised) and isinstance(cout, Raised)) else [f"outcome kind differs: {out!r} vs {cout!r}"]
         v = K.evalz(iterm(out), CS.env, CS.ufs)
         return [] if int(v) == int(cout) else [f"symbolic path gives {v}, real function gives {cout}"]
 
     def witness_constraints(self, ctx):
         return []
+
+    def hunt_candidates(self, ctx):
+        T = table()
+        i, j = bisect.bisect_left(T, self.lo), bisect.bisect_right(T, self.hi)
+        out = []
+        for s_ in T[i:j][:20]:
+            for d in (0, 1, -1):
+                if self.lo <= s_ + d < self.hi:
+                    out.append({"N": s_ + d})
+        return out
 
     def signature(self, label, values, detail):
         return f"{self.which}_fast_len:{label}"
@@ -112,12 +125,28 @@ class FastLen(Unit):
 def units(tier):
     us = []
     if tier == "quick":
-        edges = [0, 64, 256, 512, 1024, 1536, 2048, 3072, 4096, 5120, 6144, 7168, 8192]
+        edges = [0, 64, 256, 512, 1024, 2048, 4096, 8192] + [2**13 * k for k in range(2, 17)]
     else:
         edges = [0, 1024, 4096] + [2**13 * k for k in range(1, 9)] + [2**16 * k for k in range(2, 17)]
     for which in ("next", "prev"):
         for lo, hi in zip(edges, edges[1:]):
             us.append(FastLen(which, lo, hi))
+    # symbolic windows around pure prime powers (where bit-length / logarithm style shortcuts go wrong) ...
+    W = 2**8 if tier == "quick" else 2**12
+    special = set()
+    for p in (2, 3, 5, 7):
+        q = p
+        while q <= 2**62:
+            if q >= edges[-1]:
+                special.add(q)
+            q *= p
+    special = sorted(special)
+    if tier == "quick":
+        special = [s for i, s in enumerate(special) if i % 4 == 0]
+    for s in special:
+        for which in ("next", "prev"):
+            us.append(FastLen(which, s - W, s + W))
+    # ... and around a stratified sample of all 7-smooth numbers up to 2^62
     if tier != "quick":
         T = [s for s in table() if 2**20 <= s <= 2**62]
         for s in T[::97]:
